@@ -1,8 +1,10 @@
 import UrcuVerif.Lfht.Conc.Resident
+import UrcuVerif.Lfht.Conc.Traverse
 import UrcuVerif.Props.C07
 /-!
 # C05 — hash table: concurrent operations are linearizable; resident nodes are never missed
-(statements and final theorems; helper lemmas in `Lfht/Conc/Inv*.lean`, `ListLemmas.lean`, `ListThms.lean`)
+(statements and final theorems; helper lemmas in `Lfht/Conc/Inv*.lean`, `ListLemmas.lean`, `ListThms.lean`,
+`Resident.lean`, `Traverse.lean`)
 
 Model and quantifiers as in `Props/C07.lean`: any number of threads, every interleaving of the shared
 accesses of `_cds_lfht_add` (all modes), `_cds_lfht_replace`, `_cds_lfht_del`, `_cds_lfht_gc_bucket`,
@@ -11,9 +13,9 @@ lookups/traversals, and of grow/shrink with helper threads and grace periods.
 Proved for ALL reachable states — the floor of DESIGN §4 C05, on the ghost list `L` (= the nodes linked from
 bucket 0, updated by the three kinds of successful CAS):
 `chain_L`, `sorted_L`, `unremoved_linked_in_L`, `sorted_edges`, `insert_cas_sound`, `grow_before_publish`,
-`traversal_monotone`; and of the targets: `resident_found` for lookups (reachability position invariant), the update
-part of `lfht_linearizable` (`visible_set_linearizes`) and `found_was_visible`.  Not proved: `resident_found` for
-`first`/`next` traversals (`C05_full`).
+`traversal_monotone`; and the targets: `resident_found` for lookups and for `first`/`next` traversals (reachability
+position invariants), the update part of `lfht_linearizable` (`visible_set_linearizes`) and `found_was_visible`
+(`C05_full_holds`).
 -/
 namespace UrcuVerif.Lfht.Conc
 open UrcuVerif
@@ -84,12 +86,14 @@ def FoundWasVisible : Prop :=
     vis s (s.th t).cur ∧ (s'.th t).cur = (s.th t).cur ∧
     ((s.th t).wk = .lookup → s.rev (s.th t).cur = (s.th t).rh ∧ s.key (s.th t).cur = (s.th t).ky)
 
-/-- **resident_found for traversals** (target, not proved): a `first`/`next` traversal inside one read-side section
-returns every node that stays visible from the `first` call to the `next` call that answers "end" -/
+/-- **resident_found for traversals**: a `first`/`next` traversal inside one read-side section returns every node
+that stays visible from the `first` call to the `next` call that answers "end".  `evs` = the `callFirst` of `t`
+followed by any interleaving in which `t` does not leave the traversal (`Leaves` = `runlock`, a new `first` / `lookup`,
+or `next_duplicate`, which ends at the end of the run of equal hashes); `t` may delete, replace or add in between. -/
 def ResidentFoundTraversal : Prop :=
   ∀ c s0 evs s1 t q, Current c → Reach c s0 → Exec c s0 evs s1 →
     (∃ e0 rest, evs = e0 :: rest ∧ e0.2.1 = t ∧ e0.2.2.1 = .callFirst ∧
-      ∀ e, e ∈ rest → e.2.1 = t → (e.2.2.1 ≠ .runlock ∧ e.2.2.1 ≠ .callFirst ∧ ∀ h k, e.2.2.1 ≠ .callLookup h k)) →
+      ∀ e, e ∈ rest → e.2.1 = t → ¬ Leaves e.2.2.1) →
     (∀ e, e ∈ evs → vis e.1 q) →
     (∃ e w, e ∈ evs ∧ e.2.1 = t ∧ e.2.2.2 = .iter 0 w) →
     ∃ e w, e ∈ evs ∧ e.2.1 = t ∧ e.2.2.2 = .iter q w
@@ -110,7 +114,7 @@ def C05_full : Prop :=
   ChainL ∧ SortedL ∧ UnremovedLinkedInL ∧ SortedEdges ∧ InsertCasSound ∧ GrowBeforePublish ∧ TraversalMonotone ∧
   VisibleSetLinearizes ∧ FoundWasVisible ∧ ResidentFound ∧ ResidentFoundTraversal
 
-/-- the conjuncts proved so far: everything but `resident_found` for `first`/`next` traversals -/
+/-- everything but `resident_found` for `first`/`next` traversals (kept for the record; all of `C05_full` is proved below) -/
 def C05_partial : Prop :=
   ChainL ∧ SortedL ∧ UnremovedLinkedInL ∧ SortedEdges ∧ InsertCasSound ∧ GrowBeforePublish ∧ TraversalMonotone ∧
   VisibleSetLinearizes ∧ FoundWasVisible ∧ ResidentFound
@@ -174,6 +178,13 @@ theorem C05_partial_holds : C05_partial :=
   ⟨chain_L, sorted_L, unremoved_linked_in_L, sorted_edges, insert_cas_sound, grow_before_publish, traversal_monotone,
     visible_set_linearizes, found_was_visible_thm, resident_found⟩
 
+theorem resident_found_traversal : ResidentFoundTraversal := by
+  intro c s0 evs s1 t q hc r ex hcall hv hend; exact resident_found_traversal_exec hc r ex hcall hv hend
+
+theorem C05_full_holds : C05_full :=
+  ⟨chain_L, sorted_L, unremoved_linked_in_L, sorted_edges, insert_cas_sound, grow_before_publish, traversal_monotone,
+    visible_set_linearizes, found_was_visible_thm, resident_found, resident_found_traversal⟩
+
 /-! ## Non-vacuity: three adds with colliding hashes, one logical delete pending, a grow in progress -/
 
 def c3 : Cfg := { n := 3 }
@@ -198,5 +209,15 @@ example : ∃ s, Reach c3 s ∧ (s.th 2).pc = .aCas ∧ s.nxt (s.th 2).prev = (s
 /-- and `grow_before_publish`: the size store is enabled, bucket 1 is linked -/
 example : ((run c3 init busy).bind fun s => (step c3 s 1 .stSizeGrow).map fun r => (r.1.size, s.life 10)) =
     some (2, .linked) := by decide
+
+/-- a complete `first`/`next` traversal by T1 over the two user nodes: 6, 5, end -/
+def travRun : List (Nat × Label) :=
+  [(0, .rlock), (0, .callAdd .plain 5 3 30), (0, .ldSize), (0, .ldHeadA), (0, .casIns),
+   (0, .callAdd .plain 6 1 10), (0, .ldSize), (0, .ldHeadA), (0, .casIns),
+   (1, .rlock), (1, .callFirst), (1, .ldFirst), (1, .ldWalk), (1, .ldAssertW),
+   (1, .callNext), (1, .ldWalk), (1, .ldAssertW), (1, .callNext)]
+
+example : (runOut c3 init travRun).map (fun x => (x.1.L, x.2.drop 13)) =
+    some ([1, 6, 5], [.iter 6 { ptr := 5 }, .unit, .unit, .iter 5 {}, .iter 0 {}]) := by decide
 
 end UrcuVerif.Lfht.Conc
